@@ -44,17 +44,16 @@ Lemma upd_other : forall f p n q, q <> p -> upd f p n q = f q.
 Proof. intros. unfold upd. destruct (String.eqb_spec q p); congruence. Qed.
 
 (* ------------------------------------------------------------------ unpacking the conditions *)
-Lemma atomic_ok_inv : forall w, atomic_ok w = true ->
+Lemma atomic_ok_inv : forall w, writes_go_to_temp_then_replace w = true ->
   dest_only_written_by_replace w = true /\ replace_only_on_success w = true /\
-  nothing_fails_after_replace w = true /\ post_only_warnings w = true.
+  post_only_warnings w = true.
 Proof.
-  intros w H. unfold atomic_ok in H.
-  apply andb_true_iff in H as [H H4]. apply andb_true_iff in H as [H H3].
-  apply andb_true_iff in H as [H1 H2]. auto.
+  intros w H. unfold writes_go_to_temp_then_replace in H.
+  apply andb_true_iff in H as [H H3]. apply andb_true_iff in H as [H1 H2]. auto.
 Qed.
 
 Lemma writer_ok_inv : forall w, writer_ok w = true ->
-  guards_first w = true /\ atomic_ok w = true /\ opens_temp_after_guards w = true /\
+  guards_first w = true /\ writes_go_to_temp_then_replace w = true /\ opens_temp_after_guards w = true /\
   temp_removed_on_failure w = true /\ body_blocks_in_order w = true /\
   children_before_terminator w = true /\ temp_name_distinct w = true.
 Proof.
@@ -72,7 +71,7 @@ Let t := e_temp E.
 
 (* [st'] is [st] after the text W has gone through the file object *)
 Definition wrote (st st' : state) (W : string) : Prop :=
-  (forall q, fs st' q = append_at E (fs st) (handle st) W q) /\ handle st' = handle st.
+  (forall q, fs st' q = append_at E (fs st) (handle st) W q) /\ handle st' = handle st /\ pend st' = pend st.
 
 Lemma append_at_nil : forall f h q, append_at E f h "" q = f q.
 Proof.
@@ -99,11 +98,11 @@ Proof.
 Qed.
 
 Lemma wrote_refl : forall st, wrote st st "".
-Proof. intros st; split; auto. intros q. now rewrite append_at_nil. Qed.
+Proof. intros st; repeat split; auto. intros q. now rewrite append_at_nil. Qed.
 
 Lemma wrote_trans : forall a b c W1 W2, wrote a b W1 -> wrote b c W2 -> wrote a c (W1 ++ W2).
 Proof.
-  intros a b c W1 W2 [H1 H1h] [H2 H2h]. split; [|congruence].
+  intros a b c W1 W2 (H1 & H1h & H1p) (H2 & H2h & H2p). split; [|split; congruence].
   intros q. rewrite H2, H1h. now apply append_at_app.
 Qed.
 
@@ -114,8 +113,8 @@ Proof.
   unfold do_write. intros s st st' r H.
   destruct (a_wr (e_adv E) (nwr st)); inversion H; subst; clear H.
   - exists "". split; [|split; [reflexivity|discriminate]].
-    split; simpl; auto. intros q. now rewrite append_at_nil.
-  - exists s. split; [|split; auto]. split; simpl; auto.
+    repeat split; simpl; auto. intros q. now rewrite append_at_nil.
+  - exists s. split; [|split; auto]. repeat split; simpl; auto.
 Qed.
 
 Lemma write_lines_char : forall ls st st' r,
@@ -138,8 +137,8 @@ Lemma do_format_char : forall o st st' r,
   wrote st st' "" /\ (r = Ok -> cur st' = lines_of o).
 Proof.
   unfold do_format. intros o st st' r H.
-  assert (G : forall c n, wrote st (mkstate (fs st) (handle st) c n (nwr st)) "").
-  { intros; split; simpl; auto. intros q; now rewrite append_at_nil. }
+  assert (G : forall c n, wrote st (mkstate (fs st) (handle st) c n (nwr st) (pend st)) "").
+  { intros; repeat split; simpl; auto. intros q; now rewrite append_at_nil. }
   destruct o as [ls|]; [destruct (a_fmt (e_adv E) (nfmt st))|]; inversion H; subst; clear H;
     (split; [apply G|]); simpl; auto; discriminate.
 Qed.
@@ -245,7 +244,7 @@ Qed.
 (* --- steps that only write --------------------------------------------------------------- *)
 Definition writes_only (s : step) : bool :=
   match s with
-  | OpenW _ | Close | Replace _ | Remove _ _ => false
+  | OpenW _ | Close | Replace _ | Remove _ _ | Forget _ => false
   | _ => true
   end.
 
@@ -333,17 +332,18 @@ Proof.
       inversion H; subst; try apply frame_refl;
       intros q Hd Ht; simpl; apply upd_other; destruct (pth_cases t0) as [-> | ->]; auto.
   - inversion H; subst. intros q _ _; reflexivity.
-  - destruct (cond_holds c ok); [|inversion H; subst; apply frame_refl].
+  - destruct (cond_holds c ok (pend st)); [|inversion H; subst; apply frame_refl].
     destruct (handle st); [inversion H; subst; apply frame_refl|].
     destruct (a_replace (e_adv E)); [inversion H; subst; apply frame_refl|].
     destruct (fs st (e_temp E)); try (inversion H; subst; apply frame_refl).
     destruct (fs st (e_dest E)); inversion H; subst; try apply frame_refl;
       intros q Hd Ht; simpl; rewrite !upd_other; auto.
-  - destruct (cond_holds c ok); [|inversion H; subst; apply frame_refl].
+  - destruct (cond_holds c ok (pend st)); [|inversion H; subst; apply frame_refl].
     destruct (handle st); [inversion H; subst; apply frame_refl|].
     destruct (a_remove (e_adv E)); [inversion H; subst; apply frame_refl|].
     destruct (fs st (pth E t0)); inversion H; subst; try apply frame_refl.
     intros q Hd Ht; simpl. apply upd_other. destruct (pth_cases t0) as [-> | ->]; auto.
+  - inversion H; subst. intros q _ _. destruct (cond_holds c ok (pend st)); reflexivity.
 Qed.
 
 Lemma exec_list_frame : forall ok l st st' r, exec_list E ok l st = (st', r) -> frame st st'.
@@ -365,10 +365,14 @@ Proof.
   pose proof (exec_list_frame _ _ _ _ _ H2) as F2.
   destruct (exec_list E (is_ok r2) (w_exit w) s2) as [s3 r3] eqn:H3.
   pose proof (exec_list_frame _ _ _ _ _ H3) as F3.
-  assert (F : frame st s3) by (eapply frame_trans; [eapply frame_trans|]; eauto).
+  destruct (exec_list E (is_ok r2 && is_ok r3) (w_final w) s3) as [s4 r4] eqn:H4.
+  pose proof (exec_list_frame _ _ _ _ _ H4) as F4.
+  assert (F : frame st s4).
+  { eapply frame_trans; [|exact F4]. eapply frame_trans; [|exact F3]. eapply frame_trans; eauto. }
+  destruct r4; [|inversion H; subst; auto].
   destruct r3; [|inversion H; subst; auto].
   destruct r2; [|inversion H; subst; auto].
-  pose proof (exec_list_frame _ _ _ _ _ H) as F4. eapply frame_trans; eauto.
+  pose proof (exec_list_frame _ _ _ _ _ H) as F5. eapply frame_trans; eauto.
 Qed.
 
 (* ------------------------------------------------------------------ the destination is only changed by Replace *)
@@ -384,16 +388,14 @@ Qed.
 
 Lemma wrote_dest : forall st st' W, safe st -> wrote st st' W -> fs st' d = fs st d /\ safe st'.
 Proof.
-  intros st st' W Hs [H Hh]. split.
+  intros st st' W Hs (H & Hh & _). split.
   - rewrite H. now apply append_at_dest.
   - unfold safe. now rewrite Hh.
 Qed.
 
-Definition inactive_replace (ok : bool) (s : step) : bool :=
-  match s with Replace c => negb (cond_holds c ok) | _ => true end.
-
+(* a step that is not a Replace and does not name the destination leaves the destination alone *)
 Lemma exec_step_dest : forall ok s st st' r,
-  safe st -> no_dest_step s = true -> inactive_replace ok s = true ->
+  safe st -> no_dest_step s = true -> is_replace s = false ->
   exec_step E ok s st = (st', r) -> fs st' d = fs st d /\ safe st'.
 Proof.
   intros ok s st st' r Hsafe Hnd Hin H.
@@ -404,81 +406,29 @@ Proof.
     destruct (fs st t); [destruct (a_open (e_adv E))|destruct (a_open (e_adv E))|];
       inversion H; subst; auto; simpl; (split; [apply upd_other; auto|unfold safe; simpl; congruence]).
   - inversion H; subst. simpl. split; auto. unfold safe; simpl; congruence.
-  - simpl in Hin. apply negb_true_iff in Hin. rewrite Hin in H. inversion H; subst; auto.
   - destruct t0; simpl in Hnd; try (destruct c; discriminate).
-    destruct (cond_holds c ok); [|inversion H; subst; auto].
+    destruct (cond_holds c ok (pend st)); [|inversion H; subst; auto].
     destruct (handle st) eqn:Hh; [inversion H; subst; auto|].
     destruct (a_remove (e_adv E)); [inversion H; subst; auto|].
     simpl in H. fold t in H.
     destruct (fs st t); inversion H; subst; auto.
     simpl. split; [apply upd_other; auto|unfold safe; simpl; congruence].
+  - inversion H; subst. destruct (cond_holds c ok (pend st)); simpl; auto.
 Qed.
 
 Lemma exec_list_dest : forall ok l st st' r,
-  safe st -> forallb no_dest_step l = true -> forallb (inactive_replace ok) l = true ->
+  safe st -> forallb no_dest_step l = true -> forallb (fun s => negb (is_replace s)) l = true ->
   exec_list E ok l st = (st', r) -> fs st' d = fs st d /\ safe st'.
 Proof.
   induction l as [|s l IH]; simpl; intros st st' r Hsafe Hnd Hin H.
   - inversion H; subst; auto.
   - apply andb_true_iff in Hnd as [Hnd1 Hnd2]. apply andb_true_iff in Hin as [Hin1 Hin2].
+    apply negb_true_iff in Hin1.
     destruct (exec_step E ok s st) as [st1 r1] eqn:H1.
     destruct (exec_step_dest _ _ _ _ _ Hsafe Hnd1 Hin1 H1) as [Hd1 Hs1].
     destruct r1.
     + destruct (IH _ _ _ Hs1 Hnd2 Hin2 H) as [Hd2 Hs2]. split; auto. congruence.
     + inversion H; subst; auto.
-Qed.
-
-Lemma no_replace_inactive : forall ok l,
-  forallb (fun s => negb (is_replace s)) l = true -> forallb (inactive_replace ok) l = true.
-Proof.
-  induction l as [|s l IH]; simpl; auto. intros H. apply andb_true_iff in H as [H1 H2].
-  rewrite IH by auto. destruct s; simpl in *; auto; discriminate.
-Qed.
-
-Lemma guarded_inactive : forall l,
-  forallb replace_guarded l = true -> forallb (inactive_replace false) l = true.
-Proof.
-  induction l as [|s l IH]; simpl; auto. intros H. apply andb_true_iff in H as [H1 H2].
-  rewrite IH by auto. destruct s; simpl in *; auto. destruct c; simpl in *; auto; discriminate.
-Qed.
-
-Lemma quiet_list : forall l st, forallb quiet_when_ok l = true -> exec_list E true l st = (st, Ok).
-Proof.
-  induction l as [|s l IH]; simpl; intros st H; auto.
-  apply andb_true_iff in H as [H1 H2].
-  destruct s; simpl in H1; try discriminate; simpl.
-  - auto.
-  - apply negb_true_iff in H1. rewrite H1. auto.
-  - apply negb_true_iff in H1. rewrite H1. auto.
-Qed.
-
-(* __exit__ on the success path: if it raises, the destination has not been replaced *)
-Lemma exit_ok_err_dest : forall l st st' e,
-  safe st -> forallb no_dest_step l = true ->
-  match after_first_replace l with None => True | Some r => forallb quiet_when_ok r = true end ->
-  exec_list E true l st = (st', Err e) -> fs st' d = fs st d.
-Proof.
-  induction l as [|s l IH]; simpl; intros st st' e Hsafe Hnd Haf H.
-  - discriminate.
-  - apply andb_true_iff in Hnd as [Hnd1 Hnd2].
-    destruct (inactive_replace true s) eqn:Hin.
-    + assert (Haf' : match after_first_replace l with None => True | Some r => forallb quiet_when_ok r = true end).
-      { destruct s; auto. simpl in Hin. apply negb_true_iff in Hin. now rewrite Hin in Haf. }
-      destruct (exec_step E true s st) as [st1 r1] eqn:H1.
-      destruct (exec_step_dest _ _ _ _ _ Hsafe Hnd1 Hin H1) as [Hd1 Hs1].
-      destruct r1.
-      * rewrite (IH _ _ _ Hs1 Hnd2 Haf' H). auto.
-      * inversion H; subst; auto.
-    + destruct s; simpl in Hin; try discriminate. apply negb_false_iff in Hin.
-      rewrite Hin in Haf.
-      destruct (exec_step E true (Replace c) st) as [st1 r1] eqn:H1.
-      destruct r1.
-      * rewrite quiet_list in H by assumption. discriminate.
-      * inversion H; subst. simpl in H1. rewrite Hin in H1.
-        destruct (handle st); [inversion H1; auto|].
-        destruct (a_replace (e_adv E)); [inversion H1; auto|].
-        destruct (fs st (e_temp E)); try (inversion H1; auto; fail).
-        destruct (fs st (e_dest E)); inversion H1; auto.
 Qed.
 
 Lemma post_list : forall l st st' r,
@@ -495,16 +445,10 @@ Proof.
       * eauto.
 Qed.
 
-Lemma forallb_app3 : forall {A} (f : A -> bool) a b c,
-  forallb f (a ++ b ++ c)%list = true -> forallb f a = true /\ forallb f b = true /\ forallb f c = true.
-Proof.
-  intros. rewrite !forallb_app in H. apply andb_true_iff in H as [H1 H]. apply andb_true_iff in H as [H2 H3]. auto.
-Qed.
-
 Lemma init_safe : forall f, safe (init_state f).
 Proof. intros f. unfold safe, init_state. simpl. congruence. Qed.
 
-(* the shared part of the atomicity proofs: up to the end of __exit__ *)
+(* open() and the body of the with block never change the destination *)
 Lemma run_prefix_dest : forall w st s1 s2 r2,
   dest_only_written_by_replace w = true -> replace_only_on_success w = true ->
   safe st ->
@@ -514,45 +458,14 @@ Lemma run_prefix_dest : forall w st s1 s2 r2,
 Proof.
   intros w st s1 s2 r2 Hd Hr Hsafe H1 H2.
   unfold dest_only_written_by_replace, all_steps in Hd.
-  rewrite forallb_app in Hd. apply andb_true_iff in Hd as [Hdo Hd].
-  apply forallb_app3 in Hd as (Hdb & Hde & Hdp).
-  unfold replace_only_on_success in Hr. apply andb_true_iff in Hr as [Hr1 Hre].
-  apply forallb_app3 in Hr1 as (Hro & Hrb & Hrp).
-  destruct (exec_list_dest _ _ _ _ _ Hsafe Hdo (no_replace_inactive _ _ Hro) H1) as [E1 S1].
-  destruct (exec_list_dest _ _ _ _ _ S1 Hdb (no_replace_inactive _ _ Hrb) H2) as [E2 S2].
+  rewrite !forallb_app in Hd.
+  apply andb_true_iff in Hd as [Hdo Hd]. apply andb_true_iff in Hd as [Hdb _].
+  unfold replace_only_on_success in Hr. apply andb_true_iff in Hr as [Hr1 _].
+  rewrite !forallb_app in Hr1.
+  apply andb_true_iff in Hr1 as [Hro Hr1]. apply andb_true_iff in Hr1 as [Hrb _].
+  destruct (exec_list_dest _ _ _ _ _ Hsafe Hdo Hro H1) as [E1 S1].
+  destruct (exec_list_dest _ _ _ _ _ S1 Hdb Hrb H2) as [E2 S2].
   split; auto; congruence.
-Qed.
-
-Theorem atomic_strict : forall w st st' e,
-  atomic_ok w = true -> safe st -> a_post (e_adv E) = false ->
-  run_state w E st = (st', Err e) -> fs st' d = fs st d.
-Proof.
-  intros w st st' e Hw Hsafe Hpost H.
-  destruct (atomic_ok_inv _ Hw) as (Hd & Hr & Hn & Hp).
-  pose proof Hd as Hd0. pose proof Hr as Hr0.
-  unfold dest_only_written_by_replace, all_steps in Hd.
-  rewrite forallb_app in Hd. apply andb_true_iff in Hd as [Hdo Hd].
-  apply forallb_app3 in Hd as (Hdb & Hde & Hdp).
-  unfold replace_only_on_success in Hr. apply andb_true_iff in Hr as [Hr1 Hre].
-  apply forallb_app3 in Hr1 as (Hro & Hrb & Hrp).
-  unfold run_state in H.
-  destruct (exec_list E true (w_open w) st) as [s1 r1] eqn:H1.
-  destruct r1.
-  2:{ inversion H; subst.
-      now destruct (exec_list_dest _ _ _ _ _ Hsafe Hdo (no_replace_inactive _ _ Hro) H1). }
-  destruct (exec_list E true (w_body w) s1) as [s2 r2] eqn:H2.
-  destruct (run_prefix_dest _ _ _ _ _ Hd0 Hr0 Hsafe H1 H2) as [E2 S2].
-  destruct (exec_list E (is_ok r2) (w_exit w) s2) as [s3 r3] eqn:H3.
-  destruct r2; simpl in H3.
-  - (* body fine *)
-    destruct r3.
-    + destruct (post_list _ _ _ _ Hp H) as [_ Hok]. specialize (Hok Hpost). discriminate.
-    + inversion H; subst. rewrite <- E2.
-      refine (exit_ok_err_dest _ _ _ _ S2 Hde _ H3).
-      unfold nothing_fails_after_replace in Hn. destruct (after_first_replace (w_exit w)); auto.
-  - (* body raised: every Replace of __exit__ is skipped *)
-    destruct (exec_list_dest _ _ _ _ _ S2 Hde (guarded_inactive _ Hre) H3) as [E3 S3].
-    destruct r3; inversion H; subst; congruence.
 Qed.
 
 (* ------------------------------------------------------------------ guards *)
@@ -601,7 +514,8 @@ Lemma open_char : forall l st s1 r1,
   match drop_guards l with OpenW Temp :: r => forallb is_copymode r | _ => false end = true ->
   exec_list E true l st = (s1, r1) ->
   (r1 <> Ok /\ s1 = st) \/
-  (r1 = Ok /\ handle s1 = Some Temp /\ fs st t <> Dir /\ forall q, fs s1 q = upd (fs st) t (File "") q).
+  (r1 = Ok /\ handle s1 = Some Temp /\ pend s1 = true /\ fs st t <> Dir /\
+     forall q, fs s1 q = upd (fs st) t (File "") q).
 Proof.
   induction l as [|s l IH]; simpl; intros st s1 r1 Hsh H; try discriminate.
   destruct (is_guard s) eqn:Hg.
@@ -647,9 +561,6 @@ Proof.
   apply andb_true_iff in H as [H1 H2]. f_equal; auto using step_eqb_eq.
 Qed.
 
-Lemma step_list_eqb_exit : forall l, step_list_eqb l exit_shape = true -> l = exit_shape.
-Proof. intros l. apply step_list_eqb_eq. Qed.
-
 Lemma interp_canonical : forall p, interp p canonical_pieces = spec_render p.
 Proof. intros p. unfold interp, canonical_pieces, spec_render. simpl. reflexivity. Qed.
 
@@ -658,20 +569,20 @@ Lemma body_end : forall w st s1 s2 r2,
   writer_ok w = true -> safe st ->
   exec_list E true (w_open w) st = (s1, Ok) ->
   exec_list E true (w_body w) s1 = (s2, r2) ->
-  handle s2 = Some Temp /\ fs s2 d = fs st d /\ fs st d <> Dir /\
+  handle s2 = Some Temp /\ pend s2 = true /\ fs s2 d = fs st d /\ fs st d <> Dir /\
   exists W, fs s2 t = File W /\ (r2 = Ok -> W = spec_render (e_prob E)).
 Proof.
   intros w st s1 s2 r2 Hw Hsafe H1 H2.
   destruct (writer_ok_inv _ Hw) as (Hg & Hat & Hop & Hex & Hbo & Hch & Htn).
-  destruct (atomic_ok_inv _ Hat) as (Hat1 & Hat2 & _ & _).
+  destruct (atomic_ok_inv _ Hat) as (Hat1 & Hat2 & _).
   destruct (run_prefix_dest _ _ _ _ _ Hat1 Hat2 Hsafe H1 H2) as [Ed _].
   unfold guards_first in Hg. apply andb_true_iff in Hg as [_ Hgd].
   pose proof (guards_passed _ _ _ H1 Hgd) as Hnd.
   unfold opens_temp_after_guards in Hop.
-  destruct (open_char _ _ _ _ Hop H1) as [[Hc _] | (_ & Hh & _ & Hf)]; [congruence|].
+  destruct (open_char _ _ _ _ Hop H1) as [[Hc _] | (_ & Hh & Hp & _ & Hf)]; [congruence|].
   unfold body_blocks_in_order in Hbo. apply piece_list_eqb_eq in Hbo.
   assert (Hnb : forallb not_bad (pieces (w_body w)) = true) by (rewrite Hbo; reflexivity).
-  destruct (exec_list_pieces _ _ _ _ _ Hnb H2) as (W & [Hwf Hwh] & Hv).
+  destruct (exec_list_pieces _ _ _ _ _ Hnb H2) as (W & (Hwf & Hwh & Hwp) & Hv).
   repeat split; auto; try congruence.
   exists W. split.
   - rewrite Hwf, Hh. simpl. fold t. rewrite Hf, upd_same. simpl. now rewrite upd_same.
@@ -681,28 +592,67 @@ Qed.
 Lemma eqb_d_t : String.eqb d t = false.
 Proof. destruct (String.eqb_spec d t); congruence. Qed.
 
-(* the three outcomes of  close ; replace-if-ok ; remove-if-error  *)
-Lemma exit_char : forall ok s2 s3 r3 W,
-  handle s2 = Some Temp -> fs s2 t = File W -> fs s2 d <> Dir ->
-  exec_list E ok exit_shape s2 = (s3, r3) ->
-  (r3 = Ok /\ ok = true /\ fs s3 d = File W /\ fs s3 t = Absent) \/
-  (r3 = Ok /\ ok = false /\ fs s3 d = fs s2 d /\ fs s3 t = Absent) \/
-  (r3 <> Ok /\ fs s3 d = fs s2 d /\ fs s3 t = File W /\
-     (a_close (e_adv E) = true \/ a_replace (e_adv E) = true \/ a_remove (e_adv E) = true)).
+(* __exit__, both known shapes: either everything went well and the temporary has been moved over
+   the destination, or the destination is untouched and the temporary is gone — unless one of the
+   crash points [may_leave_temp] names was hit *)
+Ltac xo_reason := first [left; reflexivity | right; left; discriminate | right; right; discriminate].
+Ltac xo_dest := simpl; first [reflexivity | apply upd_other; solve [auto]].
+Ltac xo_temp := simpl; first [left; apply upd_same | right; simpl; rewrite ?orb_true_r; reflexivity].
+Ltac xo_bad := right; split; [xo_reason | split; [xo_dest | xo_temp]].
+
+Lemma exit_outcome : forall w ok s2 s3 r3 s4 r4 W,
+  temp_removed_on_failure w = true ->
+  handle s2 = Some Temp -> pend s2 = true -> fs s2 t = File W -> fs s2 d <> Dir ->
+  exec_list E ok (w_exit w) s2 = (s3, r3) ->
+  exec_list E (ok && is_ok r3) (w_final w) s3 = (s4, r4) ->
+  (ok = true /\ r3 = Ok /\ r4 = Ok /\ fs s4 d = File W /\ fs s4 t = Absent) \/
+  ((ok = false \/ r3 <> Ok \/ r4 <> Ok) /\ fs s4 d = fs s2 d /\
+     (fs s4 t = Absent \/ may_leave_temp w (e_adv E) = true)).
 Proof.
-  intros ok s2 s3 r3 W Hh Ht Hd H. unfold exit_shape in H. simpl in H. fold t d in H.
-  destruct (a_close (e_adv E)) eqn:Hc.
-  { inversion H; subst. right; right. simpl. repeat split; auto; try discriminate. }
-  destruct ok; simpl in H.
-  - destruct (a_replace (e_adv E)) eqn:Hr.
-    { inversion H; subst. right; right. simpl. repeat split; auto; try discriminate. }
-    rewrite Ht in H.
-    destruct (fs s2 d) eqn:Hdd; try congruence; inversion H; subst; left; simpl;
-      (repeat split; auto; [rewrite upd_other by auto; apply upd_same | apply upd_same]).
-  - destruct (a_remove (e_adv E)) eqn:Hr.
-    { inversion H; subst. right; right. simpl. repeat split; auto; try discriminate. }
-    rewrite Ht in H. inversion H; subst. right; left. simpl.
-    repeat split; auto; [apply upd_other; auto | apply upd_same].
+  intros w ok s2 s3 r3 s4 r4 W Hsh Hh Hp Ht Hd H3 H4.
+  assert (Hne : d <> t) by auto.
+  unfold temp_removed_on_failure in Hsh. apply orb_true_iff in Hsh as [Hsh | Hsh].
+  - (* plain *)
+    unfold exit_plain in Hsh. apply andb_true_iff in Hsh as [Hex Hfi].
+    apply step_list_eqb_eq in Hex. apply step_list_eqb_eq in Hfi.
+    unfold may_leave_temp, cleanup_total, exit_try_finally. rewrite Hex, Hfi in *.
+    simpl in H4. inversion H4; subst s4 r4. clear H4.
+    unfold exit_shape in H3. simpl in H3. fold t d in H3.
+    destruct (a_close (e_adv E)) eqn:Hc.
+    { inversion H3; subst. xo_bad. }
+    destruct ok; simpl in H3.
+    + destruct (a_replace (e_adv E)) eqn:Hr.
+      { inversion H3; subst. xo_bad. }
+      rewrite Ht in H3.
+      destruct (fs s2 d) eqn:Hdd; try congruence; inversion H3; subst; left; simpl;
+        (repeat split; auto; [rewrite upd_other by auto; apply upd_same | apply upd_same]).
+    + destruct (a_remove (e_adv E)) eqn:Hr.
+      { inversion H3; subst. xo_bad. }
+      rewrite Ht in H3. inversion H3; subst. xo_bad.
+  - (* try / finally *)
+    unfold exit_try_finally in Hsh. apply andb_true_iff in Hsh as [Hex Hfi].
+    apply step_list_eqb_eq in Hex. apply step_list_eqb_eq in Hfi.
+    unfold may_leave_temp, cleanup_total, exit_try_finally. rewrite Hex, Hfi in *.
+    unfold exit_try_shape in H3. unfold exit_final_shape in H4. simpl in H3. fold t d in H3.
+    destruct (a_close (e_adv E)) eqn:Hc.
+    { inversion H3; subst s3 r3. clear H3. rewrite andb_false_r in H4. simpl in H4. rewrite Hp in H4.
+      fold t in H4. destruct (a_remove (e_adv E)) eqn:Hr.
+      - inversion H4; subst. xo_bad.
+      - rewrite Ht in H4. inversion H4; subst. xo_bad. }
+    destruct ok; simpl in H3.
+    + destruct (a_replace (e_adv E)) eqn:Hr.
+      { inversion H3; subst s3 r3. clear H3. simpl in H4. rewrite Hp in H4. fold t in H4.
+        destruct (a_remove (e_adv E)) eqn:Hm.
+        - inversion H4; subst. xo_bad.
+        - rewrite Ht in H4. inversion H4; subst. xo_bad. }
+      rewrite Ht in H3.
+      destruct (fs s2 d) eqn:Hdd; try congruence; inversion H3; subst s3 r3; clear H3;
+        simpl in H4; inversion H4; subst; left; simpl;
+        (repeat split; auto; [rewrite upd_other by auto; apply upd_same | apply upd_same]).
+    + inversion H3; subst s3 r3. clear H3. simpl in H4. rewrite Hp in H4. fold t in H4.
+      destruct (a_remove (e_adv E)) eqn:Hm.
+      * inversion H4; subst. xo_bad.
+      * rewrite Ht in H4. inversion H4; subst. xo_bad.
 Qed.
 
 Theorem run_char : forall w st st' r,
@@ -712,16 +662,14 @@ Theorem run_char : forall w st st' r,
   (r <> Ok /\ st' = st) \/
   (* everything written and moved over the destination (the warning hand-over may still raise) *)
   ((r = Ok \/ a_post (e_adv E) = true) /\ fs st' d = File (spec_render (e_prob E)) /\ fs st' t = Absent) \/
-  (* the body raised; the temporary has been removed *)
-  (r <> Ok /\ fs st' d = fs st d /\ fs st' t = Absent) \/
-  (* __exit__ itself raised: close, replace or remove failed; the temporary is still there *)
-  (r <> Ok /\ fs st' d = fs st d /\
-     (a_close (e_adv E) = true \/ a_replace (e_adv E) = true \/ a_remove (e_adv E) = true)).
+  (* the body or __exit__ raised: the destination is untouched and the temporary has been removed,
+     unless a crash point that defeats the clean-up was hit *)
+  (r <> Ok /\ fs st' d = fs st d /\ (fs st' t = Absent \/ may_leave_temp w (e_adv E) = true)).
 Proof.
   intros w st st' r Hw Hsafe H.
   pose proof Hw as Hw0.
   destruct (writer_ok_inv _ Hw) as (Hg & Hat & Hop & Hex & Hbo & Hch & Htn).
-  destruct (atomic_ok_inv _ Hat) as (_ & _ & _ & Hpost).
+  destruct (atomic_ok_inv _ Hat) as (_ & _ & Hpost).
   unfold run_state in H.
   destruct (exec_list E true (w_open w) st) as [s1 r1] eqn:H1.
   destruct r1.
@@ -729,20 +677,64 @@ Proof.
       destruct (open_char _ _ _ _ Hop H1) as [[_ Hs] | (Hc & _)]; [|discriminate].
       inversion H; subst. left. split; auto; try discriminate. }
   destruct (exec_list E true (w_body w) s1) as [s2 r2] eqn:H2.
-  destruct (body_end _ _ _ _ _ Hw0 Hsafe H1 H2) as (Hh & Ed & Hnd & W & Ht & Hv).
-  unfold temp_removed_on_failure in Hex. apply step_list_eqb_exit in Hex. rewrite Hex in H.
-  destruct (exec_list E (is_ok r2) exit_shape s2) as [s3 r3] eqn:H3.
+  destruct (body_end _ _ _ _ _ Hw0 Hsafe H1 H2) as (Hh & Hp & Ed & Hnd & W & Ht & Hv).
+  destruct (exec_list E (is_ok r2) (w_exit w) s2) as [s3 r3] eqn:H3.
+  destruct (exec_list E (is_ok r2 && is_ok r3) (w_final w) s3) as [s4 r4] eqn:H4.
   assert (Hnd2 : fs s2 d <> Dir) by congruence.
-  destruct (exit_char _ _ _ _ _ Hh Ht Hnd2 H3) as
-    [(-> & Hok & Hd3 & Ht3) | [(-> & Hok & Hd3 & Ht3) | (Hr3 & Hd3 & Ht3 & Hadv)]].
+  destruct (exit_outcome _ _ _ _ _ _ _ _ Hex Hh Hp Ht Hnd2 H3 H4) as
+    [(Hok & -> & -> & Hd4 & Ht4) | (Hbad & Hd4 & Ht4)].
   - destruct r2; simpl in Hok; try discriminate.
-    destruct (post_list _ _ _ _ Hpost H) as [-> Hp].
-    right; left. rewrite Hd3, (Hv eq_refl). repeat split; auto.
+    destruct (post_list _ _ _ _ Hpost H) as [-> Hq].
+    right; left. rewrite Hd4, (Hv eq_refl). repeat split; auto.
     destruct (a_post (e_adv E)); auto.
-  - destruct r2; simpl in Hok; try discriminate. inversion H; subst.
-    right; right; left. repeat split; auto; try congruence; try discriminate.
-  - destruct r3; [congruence|]. inversion H; subst.
-    right; right; right. repeat split; auto; try congruence; try discriminate.
+  - right; right.
+    assert (Hr : r <> Ok /\ st' = s4).
+    { destruct r4; [|inversion H; subst; split; auto; discriminate].
+      destruct r3; [|inversion H; subst; split; auto; discriminate].
+      destruct r2; [|inversion H; subst; split; auto; discriminate].
+      simpl in Hbad. destruct Hbad as [Hb | [Hb | Hb]]; congruence. }
+    destruct Hr as [Hr ->]. repeat split; auto. congruence.
+Qed.
+
+
+(* open("w") succeeds when the guards let the destination through and nothing fails *)
+Lemma open_succeeds : forall l st,
+  match drop_guards l with OpenW Temp :: r => forallb is_copymode r | _ => false end = true ->
+  fs st d <> Dir -> (forall c, fs st d = File c -> e_ov E = true) -> fs st t <> Dir ->
+  a_open (e_adv E) = false ->
+  exists s1, exec_list E true l st = (s1, Ok).
+Proof.
+  induction l as [|s l IH]; simpl; intros st Hsh Hd Hov Ht Hao; try discriminate.
+  destruct (is_guard s) eqn:Hg.
+  - assert (Hpass : exec_step E true s st = (st, Ok)).
+    { destruct s; simpl in Hg; try discriminate; simpl; fold d.
+      - destruct (fs st d) eqn:Hfd; auto. now rewrite (Hov _ eq_refl).
+      - destruct (fs st d) eqn:Hfd; auto. congruence. }
+    rewrite Hpass. auto.
+  - destruct s; try discriminate. destruct t0; try discriminate.
+    simpl. fold t. rewrite Hao.
+    destruct (fs st t) eqn:Hft; try congruence; rewrite copymodes_same by assumption; eauto.
+Qed.
+
+Lemma close_fail_char : forall w st,
+  writer_ok w = true -> cleanup_total w = false -> safe st ->
+  fs st d <> Dir -> (forall c, fs st d = File c -> e_ov E = true) -> fs st t <> Dir ->
+  a_open (e_adv E) = false -> a_close (e_adv E) = true ->
+  exists st' W, run_state w E st = (st', Err OSError) /\ fs st' d = fs st d /\ fs st' t = File W.
+Proof.
+  intros w st Hw Hc Hsafe Hd Hov Ht Hao Hac.
+  pose proof Hw as Hw0.
+  destruct (writer_ok_inv _ Hw) as (Hg & Hat & Hop & Hex & Hbo & Hch & Htn).
+  unfold opens_temp_after_guards in Hop.
+  destruct (open_succeeds _ _ Hop Hd Hov Ht Hao) as (s1 & H1).
+  unfold run_state. rewrite H1.
+  destruct (exec_list E true (w_body w) s1) as [s2 r2] eqn:H2.
+  destruct (body_end _ _ _ _ _ Hw0 Hsafe H1 H2) as (Hh & Hp & Ed & Hnd & W & HtW & Hv).
+  unfold temp_removed_on_failure in Hex. unfold cleanup_total in Hc. rewrite Hc, orb_false_r in Hex.
+  unfold exit_plain in Hex. apply andb_true_iff in Hex as [Hex Hfi].
+  apply step_list_eqb_eq in Hex. apply step_list_eqb_eq in Hfi. rewrite Hex, Hfi.
+  unfold exit_shape. simpl. rewrite Hac. simpl.
+  exists (with_fs s2 (fs s2) None), W. simpl. auto.
 Qed.
 
 End Exec.
@@ -780,14 +772,6 @@ Proof.
   apply (run_state_frame E w _ _ _ H q Hd Ht).
 Qed.
 
-Theorem write_atomic : forall w E f f' e,
-  atomic_ok w = true -> e_temp E <> e_dest E -> a_post (e_adv E) = false ->
-  run_writer w E f = (f', Err e) -> f' (e_dest E) = f (e_dest E).
-Proof.
-  intros w E f f' e Hw Hne Hp H. apply run_writer_state in H as (s & H & ->).
-  apply (atomic_strict E Hne w _ _ _ Hw (init_safe f) Hp H).
-Qed.
-
 Theorem write_atomic_general : forall w E f f' e,
   writer_ok w = true -> e_temp E <> e_dest E ->
   run_writer w E f = (f', Err e) ->
@@ -795,7 +779,16 @@ Theorem write_atomic_general : forall w E f f' e,
 Proof.
   intros w E f f' e Hw Hne H. apply run_writer_state in H as (s & H & ->).
   destruct (run_char E Hne w _ _ _ Hw (init_safe f) H) as
-    [(_ & ->) | [(_ & Hd & _) | [(_ & Hd & _) | (_ & Hd & _)]]]; auto.
+    [(_ & ->) | [(_ & Hd & _) | (_ & Hd & _)]]; auto.
+Qed.
+
+Theorem write_atomic : forall w E f f' e,
+  writer_ok w = true -> e_temp E <> e_dest E -> a_post (e_adv E) = false ->
+  run_writer w E f = (f', Err e) -> f' (e_dest E) = f (e_dest E).
+Proof.
+  intros w E f f' e Hw Hne Hp H. apply run_writer_state in H as (s & H & ->).
+  destruct (run_char E Hne w _ _ _ Hw (init_safe f) H) as
+    [(_ & ->) | [([Hc | Hc] & _) | (_ & Hd & _)]]; auto; congruence.
 Qed.
 
 Theorem write_success : forall w E f f',
@@ -806,42 +799,65 @@ Theorem write_success : forall w E f f',
 Proof.
   intros w E f f' Hw Hne H. pose proof H as H0. apply run_writer_state in H as (s & H & ->).
   destruct (run_char E Hne w _ _ _ Hw (init_safe f) H) as
-    [(Hc & _) | [(_ & Hd & Ht) | [(Hc & _) | (Hc & _)]]]; try congruence.
+    [(Hc & _) | [(_ & Hd & Ht) | (Hc & _)]]; try congruence.
   repeat split; auto. intros q Hq1 Hq2. eapply write_frame; eauto.
 Qed.
 
 Theorem write_temp_gone : forall w E f f' r,
   writer_ok w = true -> e_temp E <> e_dest E -> f (e_temp E) = Absent ->
-  a_close (e_adv E) = false -> a_replace (e_adv E) = false -> a_remove (e_adv E) = false ->
+  may_leave_temp w (e_adv E) = false ->
   run_writer w E f = (f', r) -> f' (e_temp E) = Absent.
 Proof.
-  intros w E f f' r Hw Hne Hab Hc Hr Hm H. apply run_writer_state in H as (s & H & ->).
+  intros w E f f' r Hw Hne Hab Hm H. apply run_writer_state in H as (s & H & ->).
   destruct (run_char E Hne w _ _ _ Hw (init_safe f) H) as
-    [(_ & ->) | [(_ & _ & Ht) | [(_ & _ & Ht) | (_ & _ & [Ha | [Ha | Ha]])]]]; auto; congruence.
+    [(_ & ->) | [(_ & _ & Ht) | (_ & _ & [Ht | Ha])]]; auto; congruence.
 Qed.
 
 (* one crash point at a time *)
 Definition exit_fault (x : fault) : bool :=
   match x with FClose | FReplace | FRemove => true | _ => false end.
+Definition remove_fault (x : fault) : bool := match x with FRemove => true | _ => false end.
 Definition post_fault (x : fault) : bool := match x with FPost => true | _ => false end.
+
+Lemma may_leave_plain : forall w x,
+  cleanup_total w = false -> exit_fault x = false -> may_leave_temp w (adv_of x) = false.
+Proof. intros w x Hc Hx. unfold may_leave_temp. rewrite Hc. destruct x; simpl in *; auto; discriminate. Qed.
+
+Lemma may_leave_total : forall w x,
+  cleanup_total w = true -> remove_fault x = false -> may_leave_temp w (adv_of x) = false.
+Proof. intros w x Hc Hx. unfold may_leave_temp. rewrite Hc. destruct x; simpl in *; auto; discriminate. Qed.
 
 Theorem write_failure_at : forall w x d t ov p f f' e,
   writer_ok w = true -> t <> d -> f t = Absent ->
   write_with_failure_at x w d t ov p f = (f', Err e) ->
   (f' d = f d \/ (x = FPost /\ f' d = File (spec_render p))) /\
-  (exit_fault x = false -> f' t = Absent) /\
+  (may_leave_temp w (adv_of x) = false -> f' t = Absent) /\
   (forall q, q <> d -> q <> t -> f' q = f q).
 Proof.
   intros w x d t ov p f f' e Hw Hne Hab H. unfold write_with_failure_at in H.
   set (E := mkenv d t ov p (adv_of x)) in *.
-  destruct (writer_ok_inv _ Hw) as (_ & Hat & _).
   repeat split.
   - destruct (post_fault x) eqn:Hp.
     + destruct x; simpl in Hp; try discriminate.
       destruct (write_atomic_general w E f f' e Hw Hne H); auto.
     + left. apply (write_atomic w E f f' e); auto. destruct x; simpl in *; auto; discriminate.
-  - intros Hx. apply (write_temp_gone w E f f' (Err e)); auto; destruct x; simpl in *; auto; discriminate.
+  - intros Hx. apply (write_temp_gone w E f f' (Err e)); auto.
   - intros q Hq1 Hq2. apply (write_frame w E f f' (Err e) q); auto.
+Qed.
+
+(* the plain __exit__ leaves the temporary behind whenever the close fails (buffered data cannot be
+   flushed: the usual way a full disk shows up for a small file) — for every problem, every
+   destination that may be written *)
+Theorem close_failure_leaves_temp : forall w E f,
+  writer_ok w = true -> cleanup_total w = false -> e_temp E <> e_dest E ->
+  f (e_dest E) <> Dir -> (forall c, f (e_dest E) = File c -> e_ov E = true) -> f (e_temp E) <> Dir ->
+  a_open (e_adv E) = false -> a_close (e_adv E) = true ->
+  exists f' W, run_writer w E f = (f', Err OSError) /\ f' (e_dest E) = f (e_dest E) /\ f' (e_temp E) = File W.
+Proof.
+  intros w E f Hw Hc Hne Hd Hov Ht Hao Hac.
+  destruct (close_fail_char E Hne w (init_state f) Hw Hc (init_safe f) Hd Hov Ht Hao Hac)
+    as (s & W & Hrun & Hd' & Ht').
+  exists (fs s), W. unfold run_writer. rewrite Hrun. auto.
 Qed.
 
 (* ------------------------------------------------------------------ the temporary's name *)
@@ -902,7 +918,7 @@ Theorem headline_atomic : forall f pid d ov p k f' e,
   f (tmp_of pid d) = Absent ->
   write_with_failure_at k w d (tmp_of pid d) ov p f = (f', Err e) ->
   (f' d = f d \/ (k = FPost /\ f' d = File (spec_render p))) /\
-  (exit_fault k = false -> f' (tmp_of pid d) = Absent) /\
+  (may_leave_temp w (adv_of k) = false -> f' (tmp_of pid d) = Absent) /\
   (forall q, q <> d -> q <> tmp_of pid d -> f' q = f q).
 Proof. intros. eapply write_failure_at; eauto using tmp_of_ne. Qed.
 
@@ -913,8 +929,8 @@ Theorem headline_atomic_any : forall f pid d ov p adv f' e,
 Proof.
   intros f pid d ov p adv f' e H. split.
   - apply (write_atomic_general w (mkenv d (tmp_of pid d) ov p adv) f f' e Hw (tmp_of_ne pid d) H).
-  - intros Hp. destruct (writer_ok_inv _ Hw) as (_ & Hat & _).
-    apply (write_atomic w (mkenv d (tmp_of pid d) ov p adv) f f' e Hat (tmp_of_ne pid d) Hp H).
+  - intros Hp.
+    apply (write_atomic w (mkenv d (tmp_of pid d) ov p adv) f f' e Hw (tmp_of_ne pid d) Hp H).
 Qed.
 
 Theorem headline_success : forall f pid d ov p adv f',
@@ -925,11 +941,11 @@ Proof. intros f pid d ov p adv f' H. apply (write_success w (mkenv d (tmp_of pid
 
 Theorem headline_temp_gone : forall f pid d ov p adv f' r,
   f (tmp_of pid d) = Absent ->
-  a_close adv = false -> a_replace adv = false -> a_remove adv = false ->
+  may_leave_temp w adv = false ->
   run_writer w (mkenv d (tmp_of pid d) ov p adv) f = (f', r) -> f' (tmp_of pid d) = Absent.
 Proof.
-  intros f pid d ov p adv f' r Hab Hc Hr Hm H.
-  apply (write_temp_gone w (mkenv d (tmp_of pid d) ov p adv) f f' r Hw (tmp_of_ne pid d) Hab Hc Hr Hm H).
+  intros f pid d ov p adv f' r Hab Hm H.
+  apply (write_temp_gone w (mkenv d (tmp_of pid d) ov p adv) f f' r Hw (tmp_of_ne pid d) Hab Hm H).
 Qed.
 
 Theorem headline_frame : forall f pid d ov p adv f' r q,
